@@ -52,7 +52,7 @@ pub fn scenario(family: &str, seed: u64) -> Scenario {
         l.max_mtu = pick(rng, &[1300u16, 1350, 1500, 4000, 9000]);
         l.max_ack_delay_ms = pick(rng, &[25u64, 25, 5, 60, 200]);
     }
-    let mut sc = Scenario { seed, family: family.into(), c, s, net: net.clone(), streams: vec![], close: "c".into(), close_at_us: 0, linger_us: 300_000, deadline_us: 120_000_000, rebinds: vec![], cid_lifetime_s: 0, violation: None, retry: false, dup_cid_frames: false, rebind_toggle: false, spoof_probe: false };
+    let mut sc = Scenario { seed, family: family.into(), c, s, net: net.clone(), streams: vec![], close: "c".into(), close_at_us: 0, linger_us: 300_000, deadline_us: 120_000_000, rebinds: vec![], cid_lifetime_s: 0, violation: None, retry: false, dup_cid_frames: false, rebind_toggle: false, spoof_probe: false, tp_tamper: None };
     match family {
         // clean network, default windows: the happy path
         "clean" => {
@@ -380,6 +380,32 @@ pub fn scenario(family: &str, seed: u64) -> Scenario {
                                                     read_delay_us: pick(rng, &[0u64, 0, 2_000, 40_000]), read_mode: pick(rng, &["", "", "tokio4096", "vec8", "tokio64"]).to_string(),
                                                     ..Default::default() }).collect();
             sc.deadline_us = 200_000_000;
+        }
+        // one side's transport-parameter block is rewritten on its way into the (null TLS) handshake
+        "tp_handshake" => {
+            use crate::tamper::Tamper;
+            let t = |victim: &str, op: &str, id: u64, body: &[u8]| Tamper { victim: victim.into(), op: op.into(), id, body: body.to_vec() };
+            let cases = [
+                // the client receives the rewritten server block
+                (t("c", "none", 0, &[]), false), (t("c", "none", 0, &[]), true),
+                (t("c", "drop", 0, &[]), false), (t("c", "alter", 0, &[]), false), (t("c", "drop", 15, &[]), false), (t("c", "alter", 15, &[]), false),
+                (t("c", "drop", 16, &[]), true), (t("c", "alter", 16, &[]), true), (t("c", "set", 16, &[1, 2, 3, 4, 5, 6, 7, 8]), false),
+                (t("c", "set", 3, &[0x44, 0xaf]), false), (t("c", "set", 10, &[21]), false), (t("c", "set", 14, &[1]), false),
+                (t("c", "set", 11, &[0x80, 0, 0x40, 0]), false), (t("c", "set", 8, &[0xd0, 0, 0, 0, 0, 0, 0, 1]), false), (t("c", "dup", 4, &[]), false),
+                (t("c", "set", 4, &[0x80, 0x10, 0, 0]), false), (t("c", "set", 999, &[1, 2, 3]), false),
+                // the server receives the rewritten client block
+                (t("s", "none", 0, &[]), false), (t("s", "drop", 15, &[]), false), (t("s", "alter", 15, &[]), false),
+                (t("s", "set", 0, &[1, 2, 3, 4, 5, 6, 7, 8]), false), (t("s", "set", 2, &[9; 16]), false), (t("s", "set", 16, &[1, 2, 3, 4]), false),
+                (t("s", "set", 13, &[0; 41]), false), (t("s", "set", 3, &[0x44, 0xaf]), false), (t("s", "set", 14, &[1]), false), (t("s", "set", 10, &[20]), false),
+                (t("s", "dup", 1, &[]), false), (t("s", "set", 9, &[0x40, 0x64]), false),
+            ];
+            let (tm, retry) = cases[(seed % cases.len() as u64) as usize].clone();
+            sc.tp_tamper = Some(tm);
+            sc.retry = retry;
+            net.delay_us = 5_000;
+            sc.streams = vec![StreamSpec { opener: "c".into(), bidi: true, send: 500, reply: 500, chunk: 500, reply_chunk: 500, finish: true, ..Default::default() }];
+            sc.deadline_us = 30_000_000;
+            sc.linger_us = 200_000;
         }
         // the network dies for good at some point of the handshake or transfer: both applications must learn it
         "blackhole" => {
